@@ -47,6 +47,7 @@ def required(tier):
             'lookup:hit:merged', 'lookup:miss:merged', 'rule:create:unidentified-into-identified',
             'rule:create:identified-into-unidentified', 'rule:append:identified-into-unidentified',
             'rule:append:unidentified-into-identified', 'rule:lookup-on-unidentified-refused',
+            'in-memory:lookup', 'in-memory:saved-then-lookup', 'in-memory:closed',
         ],
         'counters': {'lookups_while_stale': 20, 'lookups_in_append': 20,
                      'merged_seam_lookups': 10},
@@ -187,6 +188,32 @@ def rule_probes(rng, workdir, rec, k):
         p.unlink(missing_ok=True)
 
 
+def in_memory_lookups(rng, workdir, rec, k):
+    """An identified store that only lives in memory (later saved)."""
+    from vlib.storeops import StoreHistory
+
+    h = StoreHistory(rng, workdir, rec, identified=True, cache_items=None, in_memory=True,
+                     uid_base=k * 1000 + 300)
+    try:
+        h.open_session('create_mem')
+        for _ in range(rng.randint(2, 5)):
+            h.op_add()
+            h.op_lookup(known=True)
+        h.op_lookup(known=False)
+        rec.cls('in-memory:lookup')
+        if rng.random() < 0.6:
+            h.op_save()
+            h.op_add()
+            h.op_lookup(known=True)
+            h.op_lookup(known=False)
+            rec.cls('in-memory:saved-then-lookup')
+        h.close()
+        rec.cls('in-memory:closed')
+    finally:
+        h.cleanup()
+    return h
+
+
 def merged_lookups(rng, workdir, rec, k):
     import numpy as np
 
@@ -262,7 +289,7 @@ def run_shard(spec, rec):
         ks = [spec['only']] if 'only' in spec else range(spec['n'])
         for k in ks:
             for part, fn in (('history', history), ('rules', rule_probes),
-                             ('merged', merged_lookups)):
+                             ('merged', merged_lookups), ('in-memory', in_memory_lookups)):
                 rng = random.Random(f"{spec['seed']}-{k}-{part}")
                 try:
                     h = fn(rng, workdir, rec, k)
